@@ -978,6 +978,11 @@ class Evaluator:
         name = (fn or "").split("::")[-1]
         if fn is None:
             return Sym("call?")
+        for pred, hook in getattr(self, "call_hooks", ()):
+            if pred(fn, res):
+                hv = hook(n, args)
+                if hv is not None:
+                    return hv
         # std helpers
         if "byteorder::LittleEndian" in fn or fn.startswith("byteorder::ByteOrder::read_") or "ByteOrder>::read_" in (res or ""):
             w = {"read_u16": 16, "read_u32": 32, "read_u64": 64}.get(name)
